@@ -87,10 +87,10 @@ def baseσ (I : MinorInst) (sel : MSlot → Bool) : NVar → Rat
 def cellErr (σ : NVar → Rat) (c : PhaseCell) : Rat :=
   (c.pos.map fun v => 1 - σ v).sum + (c.neg.map fun v => σ v).sum
 
-def choosePhase (I : MinorInst) (sel : MSlot → Bool) : List (Nat × Nat) :=
+def choosePhase (I : MinorInst) (allCells : List PhaseCell) (sel : MSlot → Bool) : List (Nat × Nat) :=
   let σ := I.baseσ sel
   (List.range I.phases.length).filterMap fun ri =>
-    let cells := (I.phaseCells.filter fun c => c.ri == ri && sel c.slot)
+    let cells := (allCells.filter fun c => c.ri == ri && sel c.slot)
     match cells with
     | [] => none
     | c0 :: rest =>
@@ -100,8 +100,9 @@ def choosePhase (I : MinorInst) (sel : MSlot → Bool) : List (Nat × Nat) :=
 def plantedσ (I : MinorInst) (copies : String → String → Nat) : NVar → Rat :=
   let sel : MSlot → Bool := fun s => decide (s.idx < copies s.major s.minor)
   let b := I.baseσ sel
-  let chosen := I.choosePhase sel
-  let cellOf := fun (ai ri : Nat) => I.phaseCells.find? fun c => c.ai == ai && c.ri == ri
+  let allCells := I.phaseCells
+  let chosen := I.choosePhase allCells sel
+  let cellOf := fun (ai ri : Nat) => allCells.find? fun c => c.ai == ai && c.ri == ri
   let ph : Nat → Nat → Rat := fun ai ri => if chosen.contains (ai, ri) then 1 else 0
   fun v =>
     match v with
